@@ -423,6 +423,15 @@ def ext_for(rows, out):
 
 # --------------------------------------------------------------------------- oracle
 
+def same_file(observed, expected, base_dir):
+    """the location names the FILE that was read: compared as files (relative spellings resolved against the directory
+    the read started in), not as strings"""
+    if observed is None:
+        return False
+    base = base_dir or _CWD
+    return os.path.realpath(os.path.join(base, observed)) == os.path.realpath(os.path.join(base, expected))
+
+
 def is_table_start(row):
     return bool(row) and isinstance(row[0], str) and row[0].startswith("**") and not row[0].startswith("***")
 
@@ -457,7 +466,7 @@ def judge(out, case, drows, urows, u_res, res_r, res_c, prefix_run, shift, to):
         if res is None:
             continue
         for w in res.get("where", []):
-            if res.get("expect_path") is not None and w["path"] != res["expect_path"]:
+            if res.get("expect_path") is not None and not same_file(w["path"], res["expect_path"], res.get("base_dir")):
                 out.fail("the error location names another file than the one being read", dict(case, tracker=nm),
                          w["path"], res["expect_path"], key="location:file")
                 return False
@@ -651,7 +660,10 @@ def two_sheet_spec(sp, out, tmpdir):
     path = os.path.join(tmpdir, "c12_two_%d.xlsx" % sp["case"]["index"])
     wb = openpyxl.Workbook()
     wb.remove(wb.active)
-    for name, rows in (("One", sp["xrows"]), ("Two", sp["valid"])):
+    # the damaged input is on the first or on the second sheet (half the cases each); the other sheet is valid
+    order = (("One", sp["xrows"]), ("Two", sp["valid"])) if not sp.get("damage_second") else \
+        (("One", sp["valid"]), ("Two", sp["xrows"]))
+    for name, rows in order:
         ws = wb.create_sheet(name)
         for r in rows:
             ws.append(list(r))
@@ -662,13 +674,15 @@ def two_sheet_spec(sp, out, tmpdir):
             xr = {w.title: [tuple(r) for r in w.iter_rows(values_only=True)] for w in wb2.worksheets}
         finally:
             wb2.close()
-        res = {tr: run_reader("excel", path, "pdtable", tr, None, rows=[]) for tr in ("raising", "collecting")}
+        tk = sp.get("tracker_kind", "plain")
+        res = {tr: run_reader("excel", path, "pdtable", tr, None, rows=[], tracker_kind=tk) for tr in ("raising", "collecting")}
     finally:
         os.remove(path)
-    case = dict(sp["case"], route="excel-two-sheets", rows={k: grid_to_json(v) for k, v in xr.items()})
+    case = dict(sp["case"], route="excel-two-sheets", damaged_sheet="Two" if sp.get("damage_second") else "One",
+                rows={k: grid_to_json(v) for k, v in xr.items()})
     out.evaluations += 1
     out.nontrivial.add(hash((repr(xr), "two")))
-    out.count("route:excel-two-sheets")
+    out.count("route:excel-two-sheets (damage on sheet %s)" % case["damaged_sheet"])
     starts = {k: [i for i, x in enumerate(v) if is_table_start(x)] for k, v in xr.items()}
     n0 = len(out.failures)
     for nm, r in res.items():
@@ -683,20 +697,29 @@ def two_sheet_spec(sp, out, tmpdir):
             out.fail("the error location (sheet, row) is not the `**` row of a table block of that sheet", c, bad, starts,
                      key="location:sheet")
             break
-        got_two = [s for s in r["table_sheets"] if s == "Two"]
-        failed_one = any(w["sheet"] == "One" for w in r["where"])
+        wrong = [w["path"] for w in r["where"] if not same_file(w["path"], path, None)]
+        if wrong:
+            out.fail("the error location names another file than the workbook being read", c, wrong, path,
+                     key="location:file")
+            break
+        per_sheet = {k: len([s for s in r["table_sheets"] if s == k]) for k in starts}
+        failed = {k: len([w for w in r["where"] if w["sheet"] == k]) for k in starts}
         if nm == "collecting":
-            if r["ending"] != "exhausted" or len(got_two) != len(starts["Two"]):
-                out.fail("after a collected error reading did not go on with the next sheet", c,
-                         {"ending": r["ending"], "tables of sheet Two": len(got_two)}, len(starts["Two"]), key="next_sheet")
+            short = [k for k in starts if per_sheet[k] + failed[k] != len(starts[k])]
+            if r["ending"] != "exhausted" or short:
+                out.fail("with a collecting tracker not every table block of every sheet was delivered or reported "
+                         "(reading must go on after an error, on this sheet and on the next)", c,
+                         {"ending": r["ending"], "delivered": per_sheet, "reported": failed},
+                         {k: len(v) for k, v in starts.items()}, key="next_sheet")
                 break
-        elif failed_one and got_two:
-            out.fail("blocks of a later sheet were delivered after the error was raised", c, len(got_two), 0,
+        elif failed["One"] and per_sheet["Two"]:
+            out.fail("blocks of a later sheet were delivered after the error was raised", c, per_sheet, 0,
                      key="raised_but_continued")
             break
-        elif not failed_one and r["ending"] == "exhausted" and len(got_two) != len(starts["Two"]):
-            out.fail("a read that ended normally did not deliver every table block", c, len(got_two), len(starts["Two"]),
-                     key="raising_missing")
+        elif not any(failed.values()) and r["ending"] == "exhausted" and \
+                any(per_sheet[k] != len(starts[k]) for k in starts):
+            out.fail("a read that ended normally did not deliver every table block", c, per_sheet,
+                     {k: len(v) for k, v in starts.items()}, key="raising_missing")
             break
     for f in out.failures[n0:]:
         f["input"]["spec"] = encode_spec(sp)
@@ -820,6 +843,7 @@ def run_spec(sp, out, model_ok, ops, pend, tmpdir, cache=None):
                 res[tr] = run_reader("file-env", (tmpdir, os.path.basename(fpath)), to, tr, fixer_kind,
                                      env=how.split(":")[1], rows=drows, sep=sep, origin=origin, tracker_kind=tk)
                 res[tr]["expect_path"] = os.path.basename(fpath)         # the relative path as it was given
+                res[tr]["base_dir"] = tmpdir
             elif how == "file":
                 n_files[0] += 1
                 fpath = write_text_file(tmpdir, dtext, n_files[0])
@@ -832,6 +856,7 @@ def run_spec(sp, out, model_ok, ops, pend, tmpdir, cache=None):
                 res[tr] = run_reader("text", dtext, to, tr, fixer_kind, rows=drows, sep=sep, origin=origin, tracker_kind=tk)
             elif how.startswith("excel"):
                 res[tr] = run_reader("excel", path, to, tr, fixer_kind, rows=drows, tracker_kind=tk)
+                res[tr]["expect_path"] = path
             elif how == "native-tuples":
                 res[tr] = run_reader("native", [tuple(r) for r in drows], to, tr, fixer_kind, rows=drows, tracker_kind=tk)
             else:
@@ -937,7 +962,8 @@ def one_base(seed, bi, thorough, out, model_ok, ops, pend, tmpdir):
         xrng.sample(cands, min(len(cands), 24 if thorough else 5))
     for kind, detail, xrows, _, _ in (picked[:2] + forced[:1] + picked[-2:]) if not thorough else picked:
         idx += 1
-        sp = {"how": "excel2", "xrows": xrows, "valid": [list(r) for r in urows],
+        sp = {"how": "excel2", "xrows": xrows, "valid": [list(r) for r in urows], "damage_second": idx % 2 == 0,
+              "tracker_kind": ["plain", "sized", "never", "hasany"][idx % 4],
               "case": {"seed": seed, "base": bi, "index": idx, "kind": kind, "detail": detail}}
         two_sheet_spec(sp, out, tmpdir)
     for kind, detail, xrows, _, _ in picked:
